@@ -1851,17 +1851,31 @@ class Exists(QuantifiedConditional):
     ) -> Iterable[OperationResult]:
         sources = sources or {}
         self._eval_parent_ = parent
-        seen_var_values = []
+        seen_var_values = set()
         for val in self.condition._evaluate__(sources, parent=self):
             if val.is_false:
                 continue
-            var_val = val.bindings.get(self.variable._id_)
-            if var_val is None:
+            if self.variable._id_ not in val.bindings:
                 # the condition held without binding the quantified variable (e.g. short-circuit)
                 yield OperationResult(val.bindings, False, self)
-            elif var_val.value not in seen_var_values:
-                seen_var_values.append(var_val.value)
+                continue
+            var_val = self._identity_of_quantified_value_(val)
+            if var_val not in seen_var_values:
+                seen_var_values.add(var_val)
                 yield OperationResult(val.bindings, False, self)
+
+    def _identity_of_quantified_value_(self, result: OperationResult) -> Tuple[int, ...]:
+        """
+        :return: What identifies the value of the quantified variable in the given result: the identities of the
+         values bound to the variables it is built from (e.g. the cabinet for `cabinet.drawers`). Two distinct objects
+         are two values even if they (or their attributes) compare equal.
+        """
+        identity = tuple(
+            result.bindings[v.id_].id_
+            for v in self.variable._unique_variables_
+            if not isinstance(v.value, Literal) and v.id_ in result.bindings
+        )
+        return identity or (result.bindings[self.variable._id_].id_,)
 
     def _invert_(self):
         return ForAll(self.variable, self.condition._invert_())
